@@ -31,7 +31,8 @@ for arg in sys.argv[1:]:
     os.remove(f'{wt}/tests/demo.rs')
     # harness copy against the patched worktree
     os.makedirs(hx, exist_ok=True)
-    sh(f'rm -rf {hx}/src {hx}/out; cp -r /verif/harness/src /verif/harness/Cargo.toml /verif/harness/Cargo.lock {hx}/')
+    H = os.environ.get('TRIAGE_HARNESS', '/verif/harness')
+    sh(f'rm -rf {hx}/src {hx}/out; cp -r {H}/src {H}/Cargo.toml {H}/Cargo.lock {hx}/')
     s = open(f'{hx}/Cargo.toml').read().replace('path = "/repo"', f'path = "{wt}"'); open(f'{hx}/Cargo.toml', 'w').write(s)
     os.makedirs(f'{hx}/.cargo', exist_ok=True); open(f'{hx}/.cargo/config.toml', 'w').write(f'[net]\noffline = true\n[build]\ntarget-dir = "{hx}/target"\n')
     b = sh(f'cd {hx} && cargo build --release --offline 2>&1 | tail -5')
@@ -62,4 +63,4 @@ for arg in sys.argv[1:]:
             res['checks'][c] = row
     sh(f'git -C {wt} checkout -- .')
     print(json.dumps(res), flush=True)
-    open('/tmp/triage.jsonl', 'a').write(json.dumps(res) + '\n')
+    open(os.environ.get('TRIAGE_LOG', '/tmp/triage.jsonl'), 'a').write(json.dumps(res) + '\n')
